@@ -154,22 +154,22 @@ class Xunitary(Compiler):
 
         # merge S2gates
         if len(regrefs) > half_n_modes:
-            for mode, indices in list_duplicates(regrefs):
-                r = 0
-                phi = 0
-
-                for k, i in enumerate(sorted(indices, reverse=True)):
-                    removed_cmd = B.pop(i)
-                    r += removed_cmd.op.p[0]
-                    phi_new = removed_cmd.op.p[1]
-
-                    if k > 0 and phi_new != phi:
+            # build the merged list in one pass (removing and inserting commands in place
+            # invalidates the positions of the other groups of duplicates)
+            duplicates = dict(list_duplicates(regrefs))
+            merged_B = []
+            for pos, (mode, cmd) in enumerate(zip(regrefs, B)):
+                if mode not in duplicates:
+                    merged_B.append(cmd)
+                elif pos == duplicates[mode][0]:
+                    cmds = [B[k] for k in duplicates[mode]]
+                    phi = cmds[0].op.p[1]
+                    if any(c.op.p[1] != phi for c in cmds[1:]):
                         raise CircuitError("Cannot merge S2gates with different phase values.")
-
-                    phi = phi_new
-
-                i, j = mode
-                B.insert(indices[0], Command(ops.S2gate(r, phi), [registers[i], registers[j]]))
+                    r = sum(c.op.p[0] for c in cmds)
+                    i, j = mode
+                    merged_B.append(Command(ops.S2gate(r, phi), [registers[i], registers[j]]))
+            B = merged_B
 
         meas_seq = [C[-1]]
         seq = GaussianUnitary().compile(C[:-1], registers)
